@@ -46,6 +46,17 @@ impl Channel {
             secret_chains(old(self).enforcement_state.counterparty_secrets->Some_0.old_secrets@,
                 (INITIAL_COMMITMENT_NUMBER - revoke_num) as u64, sk_bytes(*old_secret)),                  //[C03.cprevoke.secret-chains]
         r.is_ok() && cp_strict() ==> cp_revoke_guard(old(self).enforcement_state, (revoke_num + 1) as u64),      //[C03.cprevoke.guard]
+        // the compact store never disappears (a missing store - old databases - switches the chaining check off), and an
+        // accepted revocation changes only the slot of this index, to this secret
+        old(self).enforcement_state.counterparty_secrets.is_some() ==> final(self).enforcement_state.counterparty_secrets.is_some(),   //[C03.cprevoke.store-kept]
+        r.is_ok() && old(self).enforcement_state.counterparty_secrets.is_some() ==> ({
+            let o = old(self).enforcement_state.counterparty_secrets->Some_0.old_secrets@;
+            let f = final(self).enforcement_state.counterparty_secrets->Some_0.old_secrets@;
+            let idx = (INITIAL_COMMITMENT_NUMBER - revoke_num) as u64;
+            f == o || exists|pos: u8| place_spec(idx, pos) && (
+                (pos < o.len() && f == o.update(pos as int, (sk_bytes(*old_secret), idx)))
+                || (pos == o.len() && f == o.push((sk_bytes(*old_secret), idx))))
+        }),                                                                                                          //[C03.cprevoke.store-step]
         // only the revocation counter, the cleared previous info and the secret store may change
         r.is_ok() ==> final(self).enforcement_state == (EnforcementState {
             counterparty_secrets: final(self).enforcement_state.counterparty_secrets,
